@@ -252,6 +252,7 @@ let fstim_of (s : sexp) : fstim =
             | List [Atom "e"; k] -> FOuter (OErr (zarg k))
             | i -> FOuter (ONext (inner_of i)))
   | "i" -> FInner (narg (List.nth a 0), ev_of (List.nth a 1))
+  | "u" | "ud" -> FUnsub
   | h -> failwith ("bad flatten stimulus " ^ h)
 
 let show_fouts (l : fout list) : string =
@@ -297,7 +298,7 @@ let tlab_of (s : sexp) : tlab =
   | "src" -> LSrc (ev_of (List.hd a))
   | "run" -> LRun (narg (List.hd a))
   | "adv" -> LAdv (narg_n (List.hd a))
-  | "unsub" -> LUnsub
+  | "unsub" | "drop" -> LUnsub
   | "closed" -> LClosed
   | "finish" -> LFinish
   | "spawn_once" -> LSpawnOnce (opt_n (List.hd a))
